@@ -18,7 +18,8 @@ RULE = ("a case is one seeded corpus program (5..40 documents in groups of 1..4:
         "through the reference build (final live documents, one commit, optimize=True) and 5 (quick) / 8 (thorough) "
         "alternative histories: random partition of the operations into commits (a delete/update is always committed "
         "after the add it targets), per commit merge choice {merge=False, default MERGE_SMALL, optimize=True, custom "
-        "policy merging a random subset}, per commit W3Codec(blocklimit), compound on/off, Ram/File storage. "
+        "policy merging a random subset}, per commit W3Codec(blocklimit), compound on/off, Ram/File(mmap on/off) storage, "
+        "writer front-end per add-only commit {SegmentWriter, BufferedWriter, MpWriter, MpWriter(multisegment)}. "
         "A history is non-trivial when it produced >=2 commits and either a multi-segment final layout or at least "
         "one physical merge; distinct = distinct (schema options, per-commit (merge kind, #ops, merged?) signature, "
         "final segment count, deletions present).")
@@ -30,6 +31,8 @@ ASSUMPTIONS = [
     "delete/update operations are committed in a later writer than the add they target (a writer cannot see its own uncommitted documents - documented)",
     "physical removal of a removed field after optimize is observed through indexed_field_names(), the raw per-document stored dict and the per-document reader's has_column (internal but the only place where physical presence is visible)",
     "only whole groups or child documents are deleted (a child whose parent was deleted has no defined parent); every document is a parent or a child, so Nested* results are defined by group membership alone",
+    "front-ends: SegmentWriter for every kind of commit; BufferedWriter (one flush per commit), MpWriter(procs=2) and MpWriter(multisegment=True) for add-only commits of histories without a separate spelling field; after optimize a single segment is demanded except for MpWriter(multisegment=True), which documents that it keeps its sub-writers' segments",
+    "separate spelling fields (spell_<field>) hold a word list posted on document 0 of each segment, not per-document postings: their postings/term statistics are not compared; their lexicon is compared between deletion-free layouts (strictly when the program has no deletions; with deletions see listed finding C06-spelling-wordlist-on-doc0, population B only)",
     "population A keeps every scorable field length exactly representable by the one-byte length encoding (<=10 tokens); population B uses arbitrary lengths, where a merge re-adds byte-approximated lengths to the total field length (listed finding C06-merged-total-field-length)",
 ]
 SHARDS = {"quick": 4, "thorough": 16}
